@@ -49,7 +49,7 @@ fn make_row(rng: &mut Rng, idx: usize) -> Row {
 
 pub fn run(args: &Args) -> Out {
     let mut out = Out::new("C19", "admission-bounds");
-    let n = args.n(192, 3200);
+    let n = args.n(1_344, 13_440);
     let only: Option<usize> = args.replay.as_ref().and_then(|p| {
         let v: serde_json::Value = serde_json::from_str(&std::fs::read_to_string(p).ok()?).ok()?;
         v["replay"]["row"].as_u64().map(|x| x as usize)
@@ -329,7 +329,7 @@ pub fn run_server(args: &Args) -> Out {
         return out;
     };
     let rt = new_rt();
-    for idx in 0..args.n(16, 160) {
+    for idx in 0..args.n(32, 320) {
         if !args.mine(idx) {
             continue;
         }
